@@ -16,6 +16,11 @@ CHECKS = {
          "Every discovered FromColorUnclamped edge of 19 configurations (white point x f32/f64; 34-node D65 graph etc.) is executed on every value of a lattice of the source type's nominal range that contains every threshold of the conversion code (kappa/epsilon knee of L*, transfer-function knees, hue sector edges, the 0.8 knee of Okhsl) plus the images of a 9^3 / 17^3 RGB grid, and compared in linear-light XYZ with reference models written from CIE 15, the RGB standards, the geometric HSV/HSL/HWB definitions, Ottosson's Oklab/Okhsl/Okhsv/Okhwb and HSLuv rev 4. The RGB<->XYZ matrices, primaries and white points of the 7 RGB spaces are compared with Lindbloom's derivation. The reference itself is validated in every run against published data (Ottosson's table, all 4096 rows of the HSLuv data set, the CIE 15 table); disagreement there is a machinery failure, not a verdict.",
          "The reference models are my transcriptions of the publications (validated against published data in-run); agreement is measured in XYZ with tolerance 1e-5 (f64) / 1e-4 (f32) / 1e-3 (f32 through Okhsl/Okhsv/Okhwb); either published Oklab matrix set is accepted; values between lattice points are not explored.",
          "§4 C02"),
+ "C03": ("model_checking",
+         "exhaustive enumeration of the full product of per-component class lattices (far below ... far above each accessor bound) for every clampable type, and of (conversion edge x lattice value) over the compiler-discovered graph, on the real Clamp/IsWithinBounds/FromColor/TryFromColor code, all relations checked exactly",
+         "For 28 colour types x f32/f64 every combination of component classes {far below, just below, min-ulp, min, min+ulp, inside, max-ulp, max, max+ulp, just above, far above} (the 'one below, another above' cases the diagonal range tests never build) goes through clamp, clamp_assign and is_within_bounds, plain, wrapped in Alpha with 7 alphas and as slices of length 0..3; checked bitwise: clamp result within bounds and within the type's own min/max accessors, reference clamp per independent component, unbounded components untouched, in-bounds unchanged, idempotent, assign == by-value, slice and Alpha forms == element form. Then for every discovered edge (8 graphs) and every in- and out-of-range lattice value: from_color == clamp(from_color_unclamped) and try_from_color is Ok(unclamped) iff unclamped.is_within_bounds(), else Err carrying the unclamped colour.",
+         "Exact comparisons; bounds are read from the accessors at run time (Lch's max_chroma is documented as a practical figure, not a bound; CAM16 attributes: lower bound 0). Cam16 (full, not ArrayCast) is not included. Values between lattice classes are equivalent for a comparison-based clamp.",
+         "§4 C03"),
  "C05": ("model_checking",
          "exhaustive enumeration of the complete f32 input space (2^32 bit patterns walked as a successor chain) and of every code, on the real encoders/decoders, against a closed-form reference model",
          "Every one of the 2^32 f32 bit patterns (and its f64 widening, plus 51 doubles around each code transition) is run through each integer fast path (sRGB, Rec OETF, Adobe, P3 gamma u8; ProPhoto u16) with the table index asserted in range by the palette_verif hook; monotonicity is checked on every successor pair, saturation at both ends, the 0.6-code accuracy bound at both ends of every run of equal codes (sufficient by monotonicity of both curves), every decoder code against the closed form, decode->encode identity for every code, and the generic float curves on f32/f64 chains with complete windows round every knee. The integer-path verdict is not bounded: the space is complete.",
